@@ -12,7 +12,44 @@ HOOK_COMMITS = []
 
 ALL_IDS = ["C%02d" % i for i in range(1, 21)]
 
+
+CRON_TRUSTED = [
+    "oracle: a single cron expression evaluated in its effective time zone (github.com/furiko-io/cronexpr + Go time/tzdata) is represented by the strictly increasing list of Unix seconds it matches inside the run horizon; the harness computes that list with its own parser-option logic and its own time.Location (structured choice), independent of pkg/execution/util/cron/parser.go and pkg/core/tzutils/parse.go; calendar arithmetic itself is not proved",
+    "modelled rather than verified: container/heap + pkg/utils/heap (array layout and tie-breaking) are abstracted to a finite map key->priority; the stream compares the multiset of requests per tick, the per-key order, and the heap content (key, priority) after every op, and asserts names[queue[i].name]==i via the VerifDump hook",
+    "the informer is the harness's synchronous SharedIndexInformer: cache updated at the op, handler delivery is a separate op; client-go's real informer is not exercised",
+]
+
 PROPS = {
+    "C01": {
+        "props_file": "Props/C01.v",
+        "theorems": ["c01_get_next_least", "c01_fires_of_exact", "c01_population", "c01_tick_terminates_and_spec", "c01_sound_never_early", "c01_once_ordered", "c01_complete_or_capped", "c01_never_more_than_cap", "c01_resumes_from_present"],
+        "families": [{"name": "cron", "n_quick": 160, "n_thorough": 4000}],
+        "rule": "seeded histories of JobConfig populations (1-40, multi-expression, H fields, bounded year fields, tz names / UTC+-offsets / config default), Init, ticks (regular, delayed, stalled, sub-second, clock advancing during Work), schedule/status updates, deletes, re-creates, lagging event delivery, restarts; run on the real CronWorker+InformerWorker; non-trivial = at least one schedule request was made; distinct by (seed, case index, number of requests)",
+        "trusted": CRON_TRUSTED,
+        "assumptions": ["EnqueueJobConfig does not fail", "the controller clock never goes backwards"],
+        "level_text": "Theorems over all populations, all tick histories and all oracle lists: per-key projection of the shared pop loop (with termination), soundness, never early, exactly-once/ordered, completeness with the missed-schedule cap, resume-from-present; model tied to CronWorker/Schedule by a differential stream with heap-state comparison after every op, plus an independent executable restatement of the property as monitor.",
+        "level_note": "Trusted: Coq kernel + vm_compute, the cron oracle (cronexpr/tzdata), the harness. The array heap is abstracted to a map (compared, not proved).",
+    },
+    "C03": {
+        "props_file": "Props/C03.v",
+        "theorems": ["c03_events", "c03_new_only", "c03_then_c01", "c03_stop_on_disable", "c03_stop_on_delete", "c03_start_on_create_refuted", "c03_recreate_refuted"],
+        "families": [{"name": "cron", "n_quick": 160, "n_thorough": 4000}],
+        "rule": "same stream as C01 (cron); the monitor's C03 signatures judge requests against the JobConfig's API state after each delivered event",
+        "trusted": CRON_TRUSTED,
+        "assumptions": ["settled flushes in c03_new_only: the flushed object is the lister's current object (several schedule changes of one JobConfig in flight at once are covered by the correspondence stream and the monitor, not by the theorem)"],
+        "level_text": "Theorems: which events flush; a processed flush re-bases the key on the new object only, strictly after the flush instant, then C01 applies; disable/delete stop scheduling. Two clauses are refuted on the faithful model with vm_compute witnesses (F1 start-on-create, F2 delete+recreate) and reproduced on the real code; they are recorded as known findings.",
+        "level_note": "Trusted: as C01. Known findings F1, F1b, F2 are open.",
+    },
+    "C04": {
+        "props_file": "Props/C04.v",
+        "theorems": ["c04_reference", "c04_first_tick", "c04_no_repeat", "c04_never_scheduled_not_backscheduled", "c04_threshold_default"],
+        "families": [{"name": "cron", "n_quick": 160, "n_thorough": 4000}],
+        "rule": "same stream as C01 (cron): restarts at arbitrary instants with lastScheduled/lastUpdated/notBefore on the lattice around the restart time and thresholds 0/unset/60/120/300/600/negative",
+        "trusted": CRON_TRUSTED,
+        "assumptions": ["status.lastScheduled is what jobconfigcontroller persisted (its monotonicity is C15)"],
+        "level_text": "Theorems: the reference time equals the max-of-four specification for all presence patterns and orderings; the first tick after a start requests exactly the first maxMissed fire times in (reference, now]; nothing at or before lastScheduled; never-scheduled JobConfigs are not back-scheduled. Tied to cronschedule.New/CronWorker by the cron stream.",
+        "level_note": "Trusted: as C01.",
+    },
     "C02": {
         "props_file": "Props/C02.v",
         "theorems": ["c02_key_roundtrip", "c02_key_injective", "c02_name_injective"],
